@@ -13,3 +13,4 @@ import RosuModel.Props.C02File
 import RosuModel.Props.C02Decoded
 import RosuModel.Props.C02CodecIeee
 import RosuModel.Props.IeeeFalse
+import RosuModel.Props.C02DecodedIeee
